@@ -302,6 +302,12 @@ def _corner_shapes(acc, shard, nshards, seed, tier):
         if idx % nshards != shard:
             continue
         acc.check({"kind": "pair", "u": u, "v": v, "family": "corner", "transforms": ["index-page-case"], "options": o}, _pair_nt, ["corner:mixed-case-index-page"])
+    # a redirection route written in upper case: fingerprint_url lower-cases first, so both functions must recognise the route in any case
+    for (u, v), o in itertools.product(REDIRECT_CASE_PAIRS, optsets):
+        idx += 1
+        if idx % nshards != shard:
+            continue
+        acc.check({"kind": "pair", "u": u, "v": v, "family": "corner", "transforms": ["permute-query"], "options": o}, _pair_nt, ["corner:upper-case-redirect-route"])
     # every scheme with every port spelling (own default, another scheme's default, empty, zero-padded): the three functions must agree on which
     # ports are droppable, and the platform routes must be recognized behind any port spelling
     for scheme, port, host, tail, o in itertools.product(SCHEME_FORMS, PORT_FORMS, ["h.com", "facebook.com", "www.youtube.com"],
@@ -323,6 +329,9 @@ SCHEME_FORMS = ["http://", "https://", "HTTP://", "ftp://", "ws://", "wss://", "
 PORT_FORMS = ["", ":", ":21", ":021", ":80", ":080", ":443", ":000443", ":8080", ":22", ":0", ":65535"]
 SORT_TIE_PAIRS = [("http://example.com/list?Tag=&tag", "http://example.com/list?tag&Tag="), ("http://a.com/?K&k=&K=", "http://a.com/?K=&k=&K"),
                   ("http://a.com/p?A=1&a=1&A", "http://a.com/p?A&a=1&A=1"), ("https://b.org/?x=&X&x", "https://b.org/?x&X&x=")]
+REDIRECT_CASE_PAIRS = [("http://a.com/URL?q=http://b.com&q=http://c.com", "http://a.com/URL?q=http://c.com&q=http://b.com"),
+                       ("https://www.youtube.com/REDIRECT?q=b.com&q=c.com", "https://www.youtube.com/REDIRECT?q=c.com&q=b.com"),
+                       ("http://a.com/Url/?q=https://b.com/x&q=https://c.com/x", "http://a.com/Url/?q=https://c.com/x&q=https://b.com/x")]
 INDEX_CASE_PAIRS = [("http://a.com/x/INDEX.HTML/index.html", "http://a.com/x/INDEX.HTML"), ("https://b.org/Index.php/amp/", "https://b.org/Index.php"),
                     ("http://a.com/DEFAULT.ASPX/default.asp?x=1", "http://a.com/DEFAULT.ASPX?x=1"), ("http://a.com/x/Index/index", "http://a.com/x/Index"),
                     ("http://a.com/x/index.html/index.html", "http://a.com/x/index.html"), ("http://a.com/x/INDEX.HTML", "http://a.com/x/index.html")]
